@@ -1,12 +1,27 @@
 /-
   C06 — `skip()` consumes exactly one data item, whatever its nesting.
-  Property theorems only (work in progress: further theorems are appended as they are proved).
+  Property theorems only; all are proved at full strength (no partial fallback).
+
+  Proof architecture (Lemmas/Skip*.lean):
+  * SkipLocal   arbitrary bytes: `Consumes`, no-panic of every accessor, fuel adequacy, `*n -= 1` never underflows
+  * SkipTok     what one loop iteration consumes for every kind of head of a valid tree (`arm_*`, state independent)
+  * SkipRefine  weights of a concrete state (`segs`), the true weight machine, the relation `Rel` (same number of
+                segments, `≤` pointwise, `=` at the bottom), its preservation by every token kind in counting mode,
+                in stack mode and across the mode switch; related states stop together
+  * SkipExact   mutual structural induction over `WItem` / `List WItem`: every valid item takes `a :: r` to
+                `(a - 1) :: r` consuming exactly its bytes within the fuel; `Dec.skip_encW`
+  * SkipExt     a successful run never looks past what it consumed (⇒ error on strict prefixes)
+  * SkipView    token view on arbitrary bytes: `skipArm = armTok >>= applyTok`
+  * SkipNoAlloc lockstep of the two builds on arbitrary bytes; exactness of the no-alloc build by pure counting
+  * SkipMem     small-step semantics `Reach` and the memory bound
+  * SkipParse   the reference parser of Parse.lean is sound and complete for Wire.lean's valid trees
 -/
 import Minicbor.Lemmas.SkipLocal
 import Minicbor.Lemmas.SkipExact
 import Minicbor.Lemmas.SkipExt
 import Minicbor.Lemmas.SkipNoAlloc
 import Minicbor.Lemmas.SkipMem
+import Minicbor.Lemmas.SkipParse
 
 namespace Minicbor.C06
 open Dec
@@ -117,6 +132,33 @@ theorem skip_fuel_adequate (alloc : Bool) (fuel : Nat) (s : SkipSt) (bs : Bytes)
 theorem skip_stack_le_consumed (alloc : Bool) (bs0 : Bytes) (s : SkipSt) (bs : Bytes)
     (h : Reach alloc bs0 s bs) : s.stack.length + s.ir + bs.length ≤ bs0.length :=
   reach_stack_le_consumed alloc bs0 s bs h
+
+/-! ### agreement with full decoding (the reference parser of `Parse.lean`) -/
+
+/-- the reference parser reads back every valid tree followed by anything … -/
+theorem parse_encW (w : WItem) (rest : Bytes) (hv : w.Valid) : parse (encW w ++ rest) = some (w, rest) :=
+  Minicbor.parse_encW w rest hv
+
+/-- … and accepts nothing else: "well-formed" = image of `encW` on valid trees = accepted by `parse`. -/
+theorem parse_sound (bs : Bytes) (w : WItem) (r : Bytes) (h : parse bs = some (w, r)) :
+    w.Valid ∧ bs = encW w ++ r :=
+  Minicbor.parse_sound bs w r h
+
+theorem wellformed_iff (bs : Bytes) :
+    (∃ w : WItem, w.Valid ∧ bs = encW w) ↔ (∃ w, parse bs = some (w, [])) :=
+  Minicbor.wellformed_iff bs
+
+/-- **`skip` agrees with full decoding of the same item**: if the input (a slice) starts with a
+    well-formed item, `skip` succeeds and stops exactly where the reference decoder stops. -/
+theorem skip_agrees_parse (bs : Bytes) (w : WItem) (r : Bytes) (h : parse bs = some (w, r))
+    (hlen : bs.length < 2 ^ 64) : Dec.skip true bs = .ok () r :=
+  Dec.skip_agrees_parse bs w r h (by unfold U64MAX; omega)
+
+/-- conversely, on a well-formed prefix a successful `skip` can only end where the parser ends. -/
+theorem skip_ok_ends_at_parse (bs : Bytes) (w : WItem) (r r' : Bytes) (h : parse bs = some (w, r))
+    (hlen : bs.length < 2 ^ 64) (hs : Dec.skip true bs = .ok () r') : r' = r := by
+  rw [skip_agrees_parse bs w r h hlen] at hs
+  injection hs with _ h2; exact h2.symm
 
 /-! ### non-vacuity -/
 
